@@ -103,6 +103,9 @@ class World:
         self.SynthNet, self.AsyncSynthNet = SynthNet, AsyncSynthNet
 
         def pl(pat, name, prev, nc=None):
+            # a level without not_contains is built WITHOUT the argument (what platform authors write), never with None
+            if nc is None:
+                return PrivilegeLevel(pat, name, prev, "exit", "go " + name, False, "")
             return PrivilegeLevel(pat, name, prev, "exit", "go " + name, False, "", nc)
 
         def s_open(conn):
@@ -699,17 +702,65 @@ def defs_of(w, p):
     return d["privilege_levels"], d["failed_when_contains"]
 
 
+def nc_of(p):
+    """value of a level's not_contains; anything that is not a list / tuple of the library's own making is kept visible
+    as a marker instead of breaking the snapshot"""
+    v = getattr(p, "not_contains", None)
+    return list(v) if isinstance(v, (list, tuple)) else ["<%s>" % type(v).__name__]
+
+
 def snap_tables(privs, fwc):
-    return ([(k, (p.pattern, p.name, p.previous_priv, p.deescalate, p.escalate, p.escalate_auth, p.escalate_prompt), list(p.not_contains))
-             for k, p in privs.items()], list(fwc))
+    return ([(k, (p.pattern, p.name, p.previous_priv, p.deescalate, p.escalate, p.escalate_auth, p.escalate_prompt), nc_of(p))
+             for k, p in privs.items()], list(fwc) if isinstance(fwc, (list, tuple)) else ["<%s>" % type(fwc).__name__])
+
+
+def table_objects(privs, fwc):
+    """[(id, description)] of the mutable objects a pair of tables consists of; an object met twice is listed twice"""
+    out = [(id(privs), "the privilege_levels dict"), (id(fwc), "the failed_when_contains list")]
+    for k, p in privs.items():
+        out.append((id(p), "the PrivilegeLevel object of level %r" % k))
+        if isinstance(getattr(p, "not_contains", None), (list, dict, set, bytearray)):
+            out.append((id(p.not_contains), "the not_contains list of level %r" % k))
+    return out
 
 
 def ids_tables(privs, fwc):
-    out = {id(privs), id(fwc)}
-    for p in privs.values():
-        out.add(id(p))
-        out.add(id(p.not_contains))
+    return {i for i, _ in table_objects(privs, fwc)}
+
+
+def sharing(owners, pairs="conn"):
+    """owners = [(label, [(id, description)])].  -> sentences, one per object that two owners both hold (pairs="conn": at least
+    one of the two is a connection; "defs": two platform definitions) or that one owner holds at two places ("within")"""
+    out = []
+    if pairs == "within":
+        for label, objs in owners:
+            first = {}
+            for i, d in objs:
+                if i in first and first[i] != d:
+                    out.append("%s: %s and %s are one object" % (label, first[i], d))
+                first.setdefault(i, d)
+        return out
+    maps = [(label, {}) for label, _ in owners]
+    for (label, m), (_, objs) in zip(maps, owners):
+        for i, d in objs:
+            m.setdefault(i, d)
+    for a in range(len(maps)):
+        for b in range(a + 1, len(maps)):
+            la, lb = maps[a][0], maps[b][0]
+            both_defs = la.startswith("def:") and lb.startswith("def:")
+            if both_defs != (pairs == "defs"):
+                continue
+            for i in [x for x in maps[a][1] if x in maps[b][1]]:
+                out.append("%s %s and %s %s are the same object" % (la, maps[a][1][i], lb, maps[b][1][i]))
+    # sharing with a connection before sharing between connections' elders; deterministic order
     return out
+
+
+def defs_identity(w):
+    """identity graph of the platform definitions alone (no connection exists / matters): two definitions holding one
+    object, or one definition holding an object at two places (the model's init_ok assumes neither)"""
+    owners = [("def:" + p, table_objects(*defs_of(w, p))) for p in ISO_PLATFORMS]
+    return sharing(owners, "defs") + sharing(owners, "within")
 
 
 def snap_conn(c):
@@ -728,30 +779,47 @@ def snap_world(w):
     return out
 
 
+NC_EDITS = ("appendnc", "extendnc", "iaddnc")          # level.not_contains.append(s) / .extend(l) / += l
+FWC_EDITS = ("appendfwc", "extendfwc", "iaddfwc")        # conn.failed_when_contains likewise
+
+
 def gen_history(rng, n_ops, oracle_only):
     ops, nconn = [], 0
     plats = []
+    made = []       # per connection: names of levels created at run time (registered sessions, user-built levels)
     for _ in range(n_ops):
         r = rng.random()
         if nconn == 0 or r < 0.3:
             p = rng.choice(ISO_PLATFORMS)
             ops.append({"op": "new", "platform": p, "async": rng.random() < 0.5})
             plats.append(p)
+            made.append([])
             nconn += 1
             continue
         i = rng.randrange(nconn) if rng.random() < 0.95 else nconn + 1
         level = rng.choice(["exec", "privilege_exec", "configuration", "tclsh", "sess1", "nolevel", "configuration_exclusive"])
-        kind = rng.choice(["register", "register", "setpattern", "appendnc", "appendfwc"] + (["dellevel", "rebind_on_open", "replace_tables"] if oracle_only else []))
+        if i < nconn and made[i] and rng.random() < 0.5:
+            level = rng.choice(made[i])            # a level that is NOT a deep copy of a definition's
+        kind = rng.choice(["register", "register", "setpattern", "appendnc", "appendfwc", "addlevel", "extendnc", "iaddnc",
+                           rng.choice(["extendfwc", "iaddfwc"])] + (["dellevel", "rebind_on_open", "replace_tables"] if oracle_only else []))
         if kind == "register":
             ops.append({"op": "register", "conn": i, "name": rng.choice(["sess1", "sess2", "my-session", "exec", "s" * 9])})
+        elif kind == "addlevel":
+            ops.append({"op": "addlevel", "conn": i, "name": rng.choice(["maint", "sess1", "ops", "exec"])})
         elif kind == "setpattern":
             ops.append({"op": "setpattern", "conn": i, "level": level, "pattern": rng.choice([r"^edited#$", "", r"^x{1,3}>\s?$"])})
         elif kind == "appendnc":
             ops.append({"op": "appendnc", "conn": i, "level": level, "s": rng.choice(["(cfg", "", "tcl)"])})
+        elif kind in ("extendnc", "iaddnc"):
+            ops.append({"op": kind, "conn": i, "level": level, "l": rng.choice([["(cfg"], ["a", ""], [], ["tcl)", "(cfg", "x"]])})
         elif kind == "appendfwc":
             ops.append({"op": "appendfwc", "conn": i, "s": rng.choice(["% Error", "", "oops"])})
+        elif kind in ("extendfwc", "iaddfwc"):
+            ops.append({"op": kind, "conn": i, "l": rng.choice([["% Error"], ["oops", ""], []])})
         else:
             ops.append({"op": kind, "conn": i, "level": level})
+        if kind in ("register", "addlevel") and i < nconn and ops[-1]["name"] not in made[i]:
+            made[i].append(ops[-1]["name"])
     return ops
 
 
@@ -795,6 +863,32 @@ def apply_op(w, conns, op):
         if k == "appendfwc":
             c.failed_when_contains.append(op["s"])
             return "done", "(AppendFWC %d%%nat %s)" % (op["conn"], cbytes(op["s"]))
+        if k == "addlevel":
+            # a level the user builds at run time, WITHOUT not_contains; to the model this is what registering a session is
+            name = op["name"]
+            if name in c.privilege_levels:
+                raise ValueError("exists")
+            prev = next(iter(c.privilege_levels), "")
+            c.privilege_levels[name] = p = w.PL(r"^user-built#$", name, prev, "exit", "enter " + name, False, "")
+            c.update_privilege_levels()
+            f = "(mkPF %s %s %s %s %s %s %s)" % (cbytes(p.pattern), cbytes(p.name), cbytes(p.previous_priv), cbytes(p.deescalate),
+                                                 cbytes(p.escalate), cbool(p.escalate_auth), cbytes(p.escalate_prompt))
+            return "done", "(Register %d%%nat %s %s)" % (op["conn"], cbytes(name), f)
+        if k in ("extendnc", "iaddnc"):
+            # in-place container edits; to the model a run of appends (several terms: joined with ';' by the caller)
+            lv = c.privilege_levels[op["level"]]
+            if k == "extendnc":
+                lv.not_contains.extend(list(op["l"]))
+            else:
+                lv.not_contains += list(op["l"])
+            c.update_privilege_levels()
+            return "done", [("(AppendNC %d%%nat %s %s)" % (op["conn"], cbytes(op["level"]), cbytes(x))) for x in op["l"]]
+        if k in ("extendfwc", "iaddfwc"):
+            if k == "extendfwc":
+                c.failed_when_contains.extend(list(op["l"]))
+            else:
+                c.failed_when_contains += list(op["l"])
+            return "done", [("(AppendFWC %d%%nat %s)" % (op["conn"], cbytes(x))) for x in op["l"]]
         if k == "dellevel":
             del c.privilege_levels[op["level"]]
             c.update_privilege_levels()
@@ -818,7 +912,17 @@ def apply_op(w, conns, op):
             term = "(AppendNC %d%%nat %s %s)" % (op["conn"], cbytes(op["level"]), cbytes(op["s"]))
         elif k == "appendfwc":
             term = "(AppendFWC %d%%nat %s)" % (op["conn"], cbytes(op["s"]))
+        elif k == "addlevel":
+            term = "(Register %d%%nat %s (mkPF [] [] [] [] [] false []))" % (op["conn"], cbytes(op["name"]))
+        elif k in ("extendnc", "iaddnc"):
+            # a missing connection / level raises before anything is edited; so does every append of the model's run
+            term = [("(AppendNC %d%%nat %s %s)" % (op["conn"], cbytes(op["level"]), cbytes(x))) for x in op["l"]]
+        elif k in ("extendfwc", "iaddfwc"):
+            term = [("(AppendFWC %d%%nat %s)" % (op["conn"], cbytes(x))) for x in op["l"]]
         return "raised:" + type(e).__name__, term
+
+
+WITHIN_SHARED = []
 
 
 def run_history(w, ops):
@@ -832,7 +936,7 @@ def run_history(w, ops):
         if term is None:
             modelable = False
         else:
-            mops.append(term)
+            mops += term if isinstance(term, list) else [term]
         now = snap_world(w)
         if now != base:
             bad = [k for k in base if base[k] != now[k]]
@@ -846,13 +950,19 @@ def run_history(w, ops):
             c = conns[-1]
             if snap_tables(c.privilege_levels, c.failed_when_contains) != snap_tables(*defs_of(w, op["platform"])):
                 fails.append("op %d: a new %s connection does not start from the platform definition" % (n, op["platform"]))
-        # identity graph: no table object shared between two connections or with a definition
-        owners = [("def:" + p, ids_tables(*defs_of(w, p))) for p in ISO_PLATFORMS] + \
-                 [("conn%d" % j, ids_tables(c.privilege_levels, c.failed_when_contains)) for j, c in enumerate(conns)]
-        for a in range(len(owners)):
-            for bb in range(a + 1, len(owners)):
-                if owners[a][1] & owners[bb][1]:
-                    fails.append("after op %d %s: %s and %s share a table object" % (n, op, owners[a][0], owners[bb][0]))
+        # identity graph: no table object (dict, PrivilegeLevel, not_contains list, failed_when_contains list) shared between
+        # two connections or between a connection and a definition, none held twice by one connection
+        owners = [("def:" + p, table_objects(*defs_of(w, p))) for p in ISO_PLATFORMS] + \
+                 [("conn%d" % j, table_objects(c.privilege_levels, c.failed_when_contains)) for j, c in enumerate(conns)]
+        for x in sharing(owners, "conn")[:4]:
+            fails.append("after op %d %s: %s" % (n, op, x))
+        if op["op"] == "new" and status == "done":
+            # one connection holding an object at two places: no other connection is involved, so no verdict on the property, but
+            # the model's deepcopy (fresh object per level) is then not what the code does
+            for x in sharing(owners[-1:], "within")[:2]:
+                x = "a new %s connection: %s" % (op["platform"], x.split(": ", 1)[1])
+                if x not in WITHIN_SHARED:
+                    WITHIN_SHARED.append(x)
         if fails:
             break
     finals = [snap_tables(c.privilege_levels, c.failed_when_contains) for c in conns]
@@ -1025,6 +1135,11 @@ def run(rep):
     # ---- isolation suite -------------------------------------------------------------------------
     hterms, hcases, hfail = [], [], []
     hd = {"histories": 0, "ops": 0, "op_kinds": {}, "raised_ops": 0, "max_conns": 0, "oracle_only_histories": 0}
+    shared_defs = defs_identity(w)
+    if shared_defs:
+        # the model's initial heap (init_ok) has no object held twice; no connection is involved yet, so no verdict on the property
+        rep.broken.append("tie isolation: the platform definitions are not separate objects: " + "; ".join(shared_defs[:3]))
+    hd["definitions_sharing_an_object"] = len(shared_defs)
     hist = [(h, False) for h in history_corpus()] if not polluted else []
     for _ in range(0 if polluted else (400 if thorough else 60)):
         hist.append((gen_history(rng, rng.choice([2, 4, 6, 9, 14]), False), False))
@@ -1049,8 +1164,10 @@ def run(rep):
             hcases.append(ops)
     if hist:
         rep.sample({"history": hist[min(len(hist) - 1, 7)][0]})
+    if WITHIN_SHARED:
+        rep.broken.append("tie isolation: a connection's tables are not separate objects: " + "; ".join(WITHIN_SHARED[:3]))
     for ops, fails in hfail[:3]:
-        small = shrink_history(w, ops)
+        small = shrink_history(w, ops, fail_kind(fails[0]))
         f2 = run_history(w, small)[0]
         rep.violation("isolation: " + "; ".join((f2 or fails)[:2]), {"suite": "isolation", "history": small if f2 else ops,
                                                                    "rerun": "./check C18 --replay <this file>"})
@@ -1081,9 +1198,14 @@ def run(rep):
     rep.rule = ("factory cases = (Scrapli|AsyncScrapli, platform in 5 core / 2 real + 3 synthetic community platforms with variants / unknown names, "
                 "variant, ordered kwargs drawn per parameter from pools that contain False, 0, 0.0, '', [], {} and None) : corpus + every parameter x "
                 "every pool value alone + random subsets (sizes 0..all) + a malformed stream (wrong types, unknown transports, stray kwargs); "
-                "histories = random interleavings of creating connections through both factories and mutating one of them; "
+                "histories = random interleavings of creating connections through both factories and mutating one of them (register a session, add a "
+                "user-built level without not_contains, set a pattern, in-place append / extend / += on a level's not_contains and on "
+                "failed_when_contains; half of the level edits aim at a level created at run time on that connection); "
                 "behaviour scenarios = corpus of twin kinds (same pattern text, different level names / not_contains; both orders; sync and asyncio) + "
-                "random interleavings of new / mutate / use over 2-3 connections with the same prompt looked up on every connection in a random order; "
+                "twins with an in-place not_contains edit (append / extend / += / insert) of a registered session, of a level added without not_contains, "
+                "of levels the user built and passed as privilege_levels, followed by uses of the twin and of a connection built afterwards + "
+                "random interleavings of new (a quarter with user-built levels) / mutate / use over 2-3 connections with the same prompt looked up "
+                "on every connection in a random order; "
                 "non-trivial behaviour scenario = >= 2 connections used; "
                 "non-trivial factory case = a falsy-but-supplied argument or a non-core platform; non-trivial history = >= 2 connections and >= 1 mutation; "
                 "distinct = JSON of the case")
@@ -1147,7 +1269,7 @@ def run_behaviour(rep, thorough):
                 f2 = iso.evaluate(pool, small)[0]
             except RuntimeError:
                 small, f2 = ops, []
-            msgs = sorted(f2 or fails, key=lambda f: 0 if iso.is_behavioural(f) else 1)
+            msgs = sorted(f2 or fails, key=lambda f: 0 if iso.is_answer(f) else 1 if iso.is_behavioural(f) else 2)
             rep.violation("behaviour isolation: " + "; ".join(m[:700] for m in msgs[:2]),
                           {"suite": "behaviour", "scenario": small if f2 else ops, "failures": msgs[:4], "rerun": "./check C18 --replay <this file>"})
     finally:
@@ -1192,6 +1314,14 @@ def history_corpus():
          {"op": "appendfwc", "conn": 0, "s": "q"}, n("synth_net", True), {"op": "register", "conn": 2, "name": "sess1"}],
         [n("juniper_junos"), n("cisco_iosxr"), {"op": "setpattern", "conn": 0, "level": "configuration_exclusive", "pattern": "^x#$"},
          {"op": "appendfwc", "conn": 1, "s": ""}, {"op": "appendfwc", "conn": 5, "s": "none"}, {"op": "setpattern", "conn": 1, "level": "nolevel", "pattern": "p"}],
+        # in-place edits of levels created at run time (registered sessions, user-built levels), twins and a later connection
+        [n("arista_eos"), n("cisco_nxos", True), {"op": "register", "conn": 0, "name": "sess1"}, {"op": "register", "conn": 1, "name": "sess2"},
+         {"op": "appendnc", "conn": 0, "level": "sess1", "s": "lab"}, {"op": "extendnc", "conn": 1, "level": "sess2", "l": ["a", "b"]}, n("cisco_iosxe")],
+        [n("cisco_iosxe"), n("cisco_iosxe", True), {"op": "addlevel", "conn": 0, "name": "maint"}, {"op": "addlevel", "conn": 1, "name": "maint"},
+         {"op": "iaddnc", "conn": 1, "level": "maint", "l": ["(cfg"]}, {"op": "iaddnc", "conn": 0, "level": "exec", "l": ["x", ""]},
+         {"op": "extendfwc", "conn": 0, "l": ["oops"]}, n("juniper_junos"), {"op": "iaddfwc", "conn": 2, "l": ["q", "r"]}],
+        [n("synth_net"), n("scrapli_networkdriver"), {"op": "register", "conn": 0, "name": "sess1"}, {"op": "addlevel", "conn": 1, "name": "ops"},
+         {"op": "extendnc", "conn": 0, "level": "sess1", "l": ["zz"]}, {"op": "appendnc", "conn": 1, "level": "ops", "s": "s"}, n("synth_net", True)],
     ]
 
 
@@ -1210,7 +1340,15 @@ def shrink_case(w, case):
     return cur
 
 
-def shrink_history(w, ops):
+def fail_kind(f):
+    for k in ("are the same object", "are one object", "changed the platform definitions", "changed connection", "does not start from"):
+        if k in f:
+            return k
+    return ""
+
+
+def shrink_history(w, ops, kind=""):
+    """drop operations while a failure of the same kind remains"""
     cur = list(ops)
     changed = True
     while changed and len(cur) > 1:
@@ -1222,7 +1360,7 @@ def shrink_history(w, ops):
                 continue
             if cur[i]["op"] == "new" and i != len(cur) - 1:
                 continue
-            if t and run_history(w, t)[0]:
+            if t and any(kind in f for f in run_history(w, t)[0]):
                 cur, changed = t, True
                 break
     return cur
@@ -1339,17 +1477,25 @@ MANIFEST = {
             "random subsets and a malformed stream, and the model heap vs the real tables after random histories. Independent oracles on the real "
             "code (observed, bounded by the generators): attribute-wise comparison (callables and user objects by identity) of factory-built vs "
             "directly built drivers, literal read-back of every supplied argument, snapshots and identity graph (dict, PrivilegeLevel, not_contains, "
-            "failed_when_contains objects) of definitions and all connections after every op. ORACLE-ONLY (harness/c18_iso.py, not modelled beyond the "
+            "failed_when_contains objects, named by owner and level) of definitions and all connections after every op: an object held by two "
+            "connections or by a connection and a definition fails the property; objects shared among the definitions alone or held twice by one "
+            "connection break the tie to Heap.v (init_ok / deepcopy allocate one object per level) without a verdict. History ops beyond the "
+            "model's vocabulary are mapped onto it: a user-built level added without not_contains = Register, extend / += = a run of AppendNC / "
+            "AppendFWC. ORACLE-ONLY (harness/c18_iso.py, not modelled beyond the "
             "theorem above): that the real connection's answers ARE a function of its own tables. Scenarios interleave constructing several "
             "connections of one platform (5 core + the scrapli community network platform, sync and asyncio, sometimes a second platform), mutating "
             "one (register differently named sessions / sessions agreeing in six characters, add a level under another name with an existing "
-            "pattern, edit pattern / not_contains / failed_when_contains, delete an added level; always followed by update_privilege_levels) and USING "
+            "pattern and with or without the not_contains argument, edit pattern, edit not_contains IN PLACE (append / extend / += / insert(0)) "
+            "on deep-copied levels and, preferably, on levels created at run time (registered sessions, added levels, levels the user built and "
+            "passed as privilege_levels=), edit failed_when_contains in place (append / extend / +=), delete an added level; always followed "
+            "by update_privilege_levels) and USING "
             "them (_determine_current_priv on the simulated device's prompts, get_prompt, acquire_priv, send_command over a per-connection "
             "SimDevice with equal host names) in both orders; the scenario and, per connection, its projection (that connection alone) each run in "
             "a clean process (fork of a worker that imported scrapli but never built a connection); every answer (levels / exception class / "
             "believed level / device mode / lines typed) and the final state must be equal. Beside it a generic observer: contents of every "
             "container or scrapli-class instance in vars() of the driver / channel / transport classes (MRO), of every class in a scrapli module "
-            "and in the globals of every scrapli module, before / after the scenario (thorough: around every op), and mutable containers reachable "
+            "and in the globals of every scrapli module, and every mutable default value (__defaults__ / __kwdefaults__) of the functions and "
+            "methods found there, before / after the scenario (thorough: around every op), and mutable containers reachable "
             "from two connections; interpreter dunder memos (__slotnames__) and functools.lru_cache objects are not containers and are judged by "
             "behaviour only. Kept out: editing a level WITHOUT update_privilege_levels (stale per-connection lru entries are evicted by other "
             "connections' cache_clear — outside the documented use). partial: what BaseDriver does with an argument after "
